@@ -117,3 +117,69 @@ func walkBackward(d *drv, limit int) [][2]int {
 	}
 	return out
 }
+
+// keptIteratorOK: the iterator created at the first observation lives across every later operation.
+// Rewound with Begin (End), it must walk exactly like a fresh iterator: Begin / End / First / Last put an
+// iterator into a state that does not depend on its past.  It is left at a different place each time.
+func (d *drv) keptIteratorOK(limit, seq int) (ok bool) {
+	if d.iter == nil {
+		return true
+	}
+	defer func() {
+		if recover() != nil {
+			ok = false
+		}
+	}()
+	if d.kept == nil {
+		d.kept = adaptIterator(d.iter())
+		return true
+	}
+	same := func(a, b [][2]int) bool {
+		if len(a) != len(b) {
+			return false
+		}
+		for i := range a {
+			if a[i] != b[i] {
+				return false
+			}
+		}
+		return true
+	}
+	it := d.kept
+	walk := [][2]int{}
+	switch seq % 3 {
+	case 0:
+		it.begin()
+		for n := 0; it.next() && n < limit; n++ {
+			walk = append(walk, [2]int{it.idx(), it.val()})
+		}
+	case 1:
+		if it.first() {
+			walk = append(walk, [2]int{it.idx(), it.val()})
+			for n := 1; it.next() && n < limit; n++ {
+				walk = append(walk, [2]int{it.idx(), it.val()})
+			}
+		}
+	case 2:
+		if it.prev == nil {
+			return true
+		}
+		it.end()
+		for n := 0; it.prev() && n < limit; n++ {
+			walk = append(walk, [2]int{it.idx(), it.val()})
+		}
+		if !same(walk, walkBackward(d, limit)) {
+			return false
+		}
+		// leave it in the middle
+		it.last()
+		return true
+	}
+	if !same(walk, walkForward(d, limit)) {
+		return false
+	}
+	if seq%2 == 0 {
+		it.first() // leave it on the first element
+	}
+	return true
+}
